@@ -223,3 +223,103 @@ Definition pstep (fixed : bool) (reads : nat) (t : ppc) (s : psh) : ppc * psh :=
   end.
 Definition p_initial (t : ppc) : bool := match t with PClose | OStart => true | _ => false end.
 Definition pinit : psh := {| p_closed := false; p_dlock := false; p_rlock := false; p_reader := true; p_rclose := 0; p_panics := 0 |}.
+
+(* ------------------------------------------------------------------------------------------------ *)
+(* E. Tunnel.Start against Tunnel.Close: {state, context, dispose latch}                              *)
+(* ------------------------------------------------------------------------------------------------ *)
+(* internal/client/tunnel/tunnel.go Start: SetCtx(manager.Ctx(), onClose) [Dispose.SetCtx: if no context yet, create a
+   cancelable one AND reset the close latch]; CompareAndSwap(Connecting -> Connected) or return an error; three `go`
+   statements (monitorPeerNotification and monitorTimeout wait for ctx.Done, runDataCopy ends when the connections are
+   closed).  `ctx_first = true` is the order in the repository; `ctx_first = false` is the CAS moved ahead of SetCtx.
+   Close is the repaired CAS loop of section B with the body folded to: Dispose.Close (latch; cancel a live context),
+   the rest of the body up to onClosed, Store(Closed). *)
+Record esh := {
+  e_state : nat;         (* 0 Connecting, 1 Connected, 2 Closing, 3 Closed *)
+  e_ctx : nat;           (* 0 no context yet, 1 live, 2 cancelled *)
+  e_latch : bool;        (* Dispose.closed *)
+  e_started : bool;      (* ghost: some Start won the Connecting -> Connected transition *)
+  e_spawned : nat;       (* go statements executed by Start *)
+  e_cb : nat }.          (* onClosed invocations *)
+
+Inductive epc :=
+| ESetCtx | EStartCas | ESpawn (left : nat) | EStartRet (ok : bool)
+| ELoad | ECas (cur : nat) | EDispose | ECallback | EStoreClosed | ECloseRet (won : bool).
+
+Section Lifecycle.
+  Variable ctx_first : bool.
+  Variable spawns : nat.
+  Definition estep (t : epc) (s : esh) : epc * esh :=
+    match t with
+    | ESetCtx =>
+        (if ctx_first then EStartCas else ESpawn spawns,
+         if e_ctx s =? 0
+         then {| e_state := e_state s; e_ctx := 1; e_latch := false; e_started := e_started s; e_spawned := e_spawned s; e_cb := e_cb s |}
+         else s)                                                      (* "ctx already set, ignoring SetCtx call" *)
+    | EStartCas =>
+        if e_state s =? 0
+        then (if ctx_first then ESpawn spawns else ESetCtx,
+              {| e_state := 1; e_ctx := e_ctx s; e_latch := e_latch s; e_started := true; e_spawned := e_spawned s; e_cb := e_cb s |})
+        else (EStartRet false, s)                                     (* "invalid state transition" *)
+    | ESpawn (S k) => (ESpawn k, {| e_state := e_state s; e_ctx := e_ctx s; e_latch := e_latch s; e_started := e_started s;
+                                    e_spawned := S (e_spawned s); e_cb := e_cb s |})
+    | ESpawn 0 => (EStartRet true, s)
+    | ELoad => if (e_state s =? 2) || (e_state s =? 3) then (ECloseRet false, s) else (ECas (e_state s), s)
+    | ECas cur => if e_state s =? cur
+                  then (EDispose, {| e_state := 2; e_ctx := e_ctx s; e_latch := e_latch s; e_started := e_started s;
+                                     e_spawned := e_spawned s; e_cb := e_cb s |})
+                  else (ELoad, s)
+    | EDispose => (ECallback,                                          (* Dispose.Close: latched; cancel() if there is a context *)
+                   if e_latch s then s
+                   else {| e_state := e_state s; e_ctx := if e_ctx s =? 1 then 2 else e_ctx s; e_latch := true;
+                           e_started := e_started s; e_spawned := e_spawned s; e_cb := e_cb s |})
+    | ECallback => (EStoreClosed, {| e_state := e_state s; e_ctx := e_ctx s; e_latch := e_latch s; e_started := e_started s;
+                                     e_spawned := e_spawned s; e_cb := S (e_cb s) |})
+    | EStoreClosed => (ECloseRet true, {| e_state := 3; e_ctx := e_ctx s; e_latch := e_latch s; e_started := e_started s;
+                                          e_spawned := e_spawned s; e_cb := e_cb s |})
+    | EStartRet _ | ECloseRet _ => (t, s)
+    end.
+  Definition e_start_pc : epc := if ctx_first then ESetCtx else EStartCas.
+  Definition einit : esh := {| e_state := 0; e_ctx := 0; e_latch := false; e_started := false; e_spawned := 0; e_cb := 0 |}.
+  Definition erun (ts : list epc) (sched : list nat) : esh * list epc := run _ _ estep (einit, ts) sched.
+End Lifecycle.
+Definition e_initial (ctx_first : bool) (t : epc) : bool :=
+  match t with ELoad => true | ESetCtx => ctx_first | EStartCas => negb ctx_first | _ => false end.
+Definition e_returned (t : epc) : bool := match t with EStartRet _ | ECloseRet _ => true | _ => false end.
+Definition e_is_closer (t : epc) : bool :=
+  match t with ELoad | ECas _ | EDispose | ECallback | EStoreClosed | ECloseRet _ => true | _ => false end.
+(* the monitors started by Start that are still alive: they only end when the context is cancelled *)
+Definition e_monitors_alive (s : esh) : bool := (0 <? e_spawned s) && negb (e_ctx s =? 2).
+
+(* ------------------------------------------------------------------------------------------------ *)
+(* F. Bridge.Close against a forwarding write to a stalled peer: lock ownership                       *)
+(* ------------------------------------------------------------------------------------------------ *)
+(* bridge_forward.go dynamicSourceWriter.Write: sourceConnMu.RLock; read sourceForwarder; RUnlock; forwarder.Write(p)
+   (`hold = false`, the repository) — or RUnlock deferred, i.e. the read lock is held across the Write (`hold = true`).
+   bridge.go Close: sourceConnMu.Lock; sourceForwarder.Close() [the step that makes a blocked Write return]; Unlock; ...
+   A Write to a stalled peer (f_stall) returns only once the forwarder has been closed. *)
+Record fsh := { f_readers : nat; f_w : bool; f_closed : bool }.
+Inductive fpc := WLock | WHave | WIO (held : bool) | WRel | WDone | KLock | KClose | KUnlock | KDone.
+Record fth := { f_stall : bool; f_pc : fpc }.
+
+Section Locks.
+  Variable hold : bool.
+  Definition fwith (t : fth) (p : fpc) : fth := {| f_stall := f_stall t; f_pc := p |}.
+  Definition fstep (t : fth) (s : fsh) : fth * fsh :=
+    match f_pc t with
+    | WLock => if f_w s then (t, s)
+               else (fwith t WHave, {| f_readers := S (f_readers s); f_w := f_w s; f_closed := f_closed s |})
+    | WHave => if hold then (fwith t (WIO true), s)
+               else (fwith t (WIO false), {| f_readers := pred (f_readers s); f_w := f_w s; f_closed := f_closed s |})
+    | WIO h => if f_stall t && negb (f_closed s) then (t, s)          (* blocked in Write: the peer does not read *)
+               else (fwith t (if h then WRel else WDone), s)
+    | WRel => (fwith t WDone, {| f_readers := pred (f_readers s); f_w := f_w s; f_closed := f_closed s |})
+    | KLock => if f_w s || (0 <? f_readers s) then (t, s)
+               else (fwith t KClose, {| f_readers := f_readers s; f_w := true; f_closed := f_closed s |})
+    | KClose => (fwith t KUnlock, {| f_readers := f_readers s; f_w := f_w s; f_closed := true |})
+    | KUnlock => (fwith t KDone, {| f_readers := f_readers s; f_w := false; f_closed := f_closed s |})
+    | WDone | KDone => (t, s)
+    end.
+  Definition finit : fsh := {| f_readers := 0; f_w := false; f_closed := false |}.
+End Locks.
+Definition f_initial (t : fth) : bool := match f_pc t with WLock | KLock => true | _ => false end.
+Definition f_close_pending (t : fth) : bool := match f_pc t with KLock | KClose | KUnlock => true | _ => false end.
